@@ -269,6 +269,19 @@ Proof.
   - unfold certainly_called. rewrite Hs, Hd. apply Nat.ltb_lt in Hi. rewrite Hi. reflexivity.
 Qed.
 
+(* ... and so is a sole attempt that answers at 80 % of the timeout, i.e. inside its own deadline
+   but after the 75 % at which a sibling's concurrent stage gives up *)
+Lemma mid_answer_is_delivered c i :
+  multi c && c_seq c = false -> (i < nbackends c)%nat ->
+  nth i (c_backends c) [] = [Mid] -> parent_after c (reduced 85 100 (c_T c)) = true ->
+  In i (must_keys c).
+Proof.
+  intros Hs Hi Hm Hp. unfold must_keys. apply filter_In. split.
+  - apply In_upto. lia.
+  - unfold certainly_called, mid_delivers. rewrite Hs, Hm, Hp. apply Nat.ltb_lt in Hi. rewrite Hi.
+    simpl. reflexivity.
+Qed.
+
 (* ---------------------------------------------------------------------------------- *)
 (* the boolean oracle is the property *)
 
